@@ -1,6 +1,7 @@
 package smt
 
 import (
+	"math"
 	"math/big"
 	"strings"
 )
@@ -118,4 +119,44 @@ func realConstStr(name string) string {
 		return "(- " + txt + ")"
 	}
 	return txt
+}
+
+// EvalReal evaluates a real-sorted term exactly; variables take the float64 value whose bit pattern the model holds.
+func (s *Store) EvalReal(t *Term, m map[*Term]uint64, memo map[*Term]uint64) (*big.Rat, bool) {
+	switch t.Op {
+	case OpConst:
+		return ratOf(t)
+	case OpVar:
+		r := new(big.Rat)
+		if r.SetFloat64(math.Float64frombits(m[t])) == nil {
+			return nil, false
+		}
+		return r, true
+	case OpIte:
+		c, ok := s.Eval(t.Args[0], m, memo)
+		if !ok {
+			return nil, false
+		}
+		if c == 1 {
+			return s.EvalReal(t.Args[1], m, memo)
+		}
+		return s.EvalReal(t.Args[2], m, memo)
+	case OpRAdd, OpRSub, OpRMul:
+		x, ok1 := s.EvalReal(t.Args[0], m, memo)
+		y, ok2 := s.EvalReal(t.Args[1], m, memo)
+		if !ok1 || !ok2 {
+			return nil, false
+		}
+		z := new(big.Rat)
+		switch t.Op {
+		case OpRAdd:
+			z.Add(x, y)
+		case OpRSub:
+			z.Sub(x, y)
+		default:
+			z.Mul(x, y)
+		}
+		return z, true
+	}
+	return nil, false
 }
